@@ -1,6 +1,5 @@
-(* Proofs/PolicyTinyLfuProofs.v — what TinyLfuP satisfies of the C14 contract, for
-   every frequency sketch, capacity and call sequence; refutation of sufficiency
-   (finding F-21). *)
+(* Proofs/PolicyTinyLfuProofs.v — the full C14 contract for TinyLfuP, for every
+   frequency sketch, capacity and call sequence. *)
 From Fibre Require Import Common.Base Cache.PolicySpec Cache.PolicyLru Cache.PolicySlru
      Cache.PolicyTinyLfu Proofs.PolicyCommon Proofs.PolicyLruProofs Proofs.PolicySlruProofs.
 
@@ -166,19 +165,51 @@ Section TinyLfuProofs.
       apply Permutation_app_head. apply slru_remove_ok. apply tl_main_inv. exact HI.
   Qed.
 
+  Lemma win_split_perm (W R tk Vm M' M : list kc) :
+    W = rev R ++ rev tk -> Permutation M (Vm ++ M') ->
+    Permutation (W ++ M) ((Vm ++ tk) ++ rev R ++ M').
+  Proof.
+    intros -> HP.
+    eapply Permutation_trans; [apply Permutation_app_head; exact HP|].
+    (* (rev R ++ rev tk) ++ Vm ++ M'  ~  (Vm ++ tk) ++ rev R ++ M' *)
+    rewrite <- !app_assoc.
+    eapply Permutation_trans; [apply Permutation_app_swap_app|].
+    eapply Permutation_trans; [apply Permutation_app_head; apply Permutation_app_swap_app|].
+    (* rev tk ++ Vm ++ rev R ++ M' *)
+    eapply Permutation_trans; [apply Permutation_app_swap_app|].
+    apply Permutation_app_head.
+    apply Permutation_app_tail. apply Permutation_sym, Permutation_rev.
+  Qed.
+
   Lemma tl_evict_ok cap n (s s' : tlfu) vs f : tl_inv s ->
     tl_evict sk cap n s = (s', vs, f) ->
-    evict_core (tl_tr s) (tl_tr s') vs f.
+    evict_ok (tl_tr s) (tl_tr s') n vs f.
   Proof.
-    intros HI. unfold tl_evict. destruct (N.eqb n 0).
+    intros HI. unfold tl_evict. destruct (N.eqb_spec n 0) as [->|Hn0].
     - intros H. inversion H; subst. repeat split.
       + constructor.
       + intros x [].
       + rewrite without_nil. apply Permutation_refl.
+      + intros _. lia.
     - destruct (slru_evict (tl_main_prot_capacity cap) n (tl_main s)) as [[m' vs1] f1] eqn:E.
-      intros H. inversion H; subst. unfold PolicyTinyLfu.tl_tr. cbn [tl_win tl_main].
-      apply evict_core_lift; [exact HI|].
-      eapply evict_ok_core. eapply slru_evict_ok; [apply tl_main_inv; exact HI | exact E].
+      destruct (pop_while n f1 (rev (tl_win s))) as [[vs2 f2] rest] eqn:E2.
+      intros H. inversion H; subst s' vs f. clear H.
+      destruct (slru_evict_split _ _ _ _ _ _ (tl_main_inv s HI) E) as [Vm [Hv1 [Hf1 [HPm Hsm]]]].
+      destruct (pop_while_spec _ _ _ _ _ _ E2) as [tk [Hr [Hv2 [Hf2 [Hs2 _]]]]].
+      assert (Hw : tl_win s = rev rest ++ rev tk).
+      { rewrite <- (rev_involutive (tl_win s)), Hr, rev_app_distr. reflexivity. }
+      assert (HP : Permutation (tl_tr s) ((Vm ++ tk) ++ rev rest ++ slru_tr m')).
+      { unfold PolicyTinyLfu.tl_tr. apply win_split_perm; assumption. }
+      subst vs1 vs2. rewrite <- keys_app.
+      unfold PolicyTinyLfu.tl_tr at 2. cbn [tl_win tl_main].
+      apply evict_ok_split.
+      + exact HI.
+      + exact HP.
+      + rewrite total_app. lia.
+      + intros Hn. destruct Hs2 as [Hs2|Hs2]; [exact Hs2|].
+        destruct Hsm as [Hsm|Hsm]; [lia|].
+        subst rest. rewrite Hsm in HP. cbn [rev app] in HP. rewrite app_nil_r in HP.
+        apply total_perm in HP. rewrite total_app in HP. lia.
   Qed.
 
   Lemma keys_nil_inv (R : list kc) : keys R = [] -> R = [].
@@ -186,7 +217,7 @@ Section TinyLfuProofs.
 
   Lemma tl_admit_ok cap k c (s : tlfu) : tl_inv s ->
     let '(s', o) := tl_admit sk sk_incr sk_est cap k c s in
-    step_okG access_update admit_full evict_nosuff (tl_tr s) (Admit k c) o (tl_tr s').
+    step_okG access_update admit_full evict_ok (tl_tr s) (Admit k c) o (tl_tr s').
   Proof.
     intros HI. unfold tl_admit.
     destruct (orb (ll_has k (sl_prob (tl_main s))) (ll_has k (sl_prot (tl_main s)))) eqn:Em.
@@ -233,57 +264,31 @@ Section TinyLfuProofs.
 
   Lemma tl_step_ok cap (s : tlfu) cl : tl_inv s ->
     let '(s', o) := tl_step sk sk_incr sk_est sk_clear cap s cl in
-    step_okG access_update admit_full evict_nosuff (tl_tr s) cl o (tl_tr s').
+    step_okG access_update admit_full evict_ok (tl_tr s) cl o (tl_tr s').
   Proof.
     intros H. destruct cl as [k c|k c|k|n|]; cbn [tl_step].
     - cbn [step_okG]. apply tl_access_ok. exact H.
     - apply tl_admit_ok. exact H.
     - cbn [step_okG]. apply tl_remove_ok. exact H.
     - destruct (tl_evict sk cap n s) as [[s' vs] f] eqn:E.
-      cbn [step_okG]. unfold evict_nosuff. eapply tl_evict_ok; eauto.
+      cbn [step_okG]. eapply tl_evict_ok; eauto.
     - reflexivity.
   Qed.
 
-  Theorem tinylfu_contract_except_F21 cap :
-    contractG access_update admit_full evict_nosuff
+  Theorem tinylfu_contract cap :
+    contractG access_update admit_full evict_ok
               (TinyLfuP sk sk_incr sk_est sk_clear sk0 cap).
   Proof.
     apply contractG_lift_nodup.
     - exact access_update_NoDup.
     - exact admit_full_NoDup.
-    - intros T T' n vs c H. exact H.
+    - intros T T' n vs c. apply evict_ok_core.
     - constructor.
     - intros s cl Hs. exact (tl_step_ok cap s cl Hs).
-  Qed.
-
-  (** evict falls short only when the whole main cache has been drained: what is
-      left tracked-but-unevictable is exactly the window *)
-  Theorem tinylfu_evict_short_only_window cap n (s : tlfu) :
-    let '(s', vs, f) := tl_evict sk cap n s in
-    n <= f \/ (slru_tr (tl_main s') = [] /\ tl_win s' = tl_win s).
-  Proof.
-    unfold tl_evict. destruct (N.eqb_spec n 0) as [->|Hn]; [left; lia|].
-    pose proof (slru_evict_order (tl_main_prot_capacity cap) n (tl_main s)) as Ho.
-    cbv zeta in Ho.
-    destruct (slru_evict (tl_main_prot_capacity cap) n (tl_main s)) as [[m' vs] f].
-    destruct Ho as [V1 [V2 [_ [_ [_ [_ [_ Hs]]]]]]]. cbn [tl_main tl_win].
-    destruct Hs as [Hs|[H1 H2]]; [left; exact Hs | right].
-    unfold slru_tr. rewrite H1, H2. split; reflexivity.
-  Qed.
-
-  (** F-21: a key that is still in the window is tracked but never nominated
-      (TinyLfuPolicy::new(100): on_admit(1,1); evict(1) -> ([], 0)), whatever the sketch *)
-  Theorem tinylfu_sufficiency_refuted :
-    ~ contractG access_update admit_full evict_ok (TinyLfuP sk sk_incr sk_est sk_clear sk0 100).
-  Proof.
-    intros H. specialize (H [Admit 1 1]). cbv zeta in H. destruct H as [_ H].
-    specialize (H (Evict 1)).
-    change (evict_ok [(1, 1)] [(1, 1)] 1 [] 0) in H.
-    destruct H as [_ [_ [_ [_ H]]]]. cbn [total] in H. lia.
   Qed.
 End TinyLfuProofs.
 
 (* the replay instance used by the D1 driver is one of the instances quantified over *)
 Corollary tinylfu_replay_contract rejects cap :
-  contractG access_update admit_full evict_nosuff (TinyLfuReplayP rejects cap).
-Proof. apply tinylfu_contract_except_F21. Qed.
+  contractG access_update admit_full evict_ok (TinyLfuReplayP rejects cap).
+Proof. apply tinylfu_contract. Qed.
